@@ -64,6 +64,21 @@ theorem len_spec (pos : Int) (c : List CigarOp) (hne : c ≠ []) (h : Standard c
   simp only [Option.map_some]
   congr 1; omega
 
+/-! ### CIGAR validity -/
+
+/-- `Cigar.IsValid(n)` never panics on standard operations and is true exactly when the query-consuming
+lengths sum to `n`, every `H` is first or last, and every `S` is first, last or next to an `H`. -/
+theorem isvalid_spec (c : List CigarOp) (n : Int) (h : Standard c) :
+    ∃ b, cigarIsValid c n = some b ∧
+      (b = true ↔ (∀ j, HCond c j ∧ SCond c j) ∧ queryLen c = n) := by
+  obtain ⟨b, hb, hiff⟩ := isValidLoop_spec c [] 0 n (Int.le_refl _) (by simpa [Standard] using h)
+  refine ⟨b, by simpa [cigarIsValid] using hb, ?_⟩
+  rw [hiff]
+  simp only [List.nil_append, List.length_nil, Nat.zero_le, forall_const]
+  constructor
+  · rintro ⟨ha, hq⟩; exact ⟨ha, hq.symm⟩
+  · rintro ⟨ha, hq⟩; exact ⟨ha, hq.symm⟩
+
 /-! ### bins: model = specification on the indexable range -/
 
 theorem binFor_is_spec (beg end_ : Nat) (h1 : beg < end_) (h2 : end_ ≤ 2 ^ 29) :
@@ -117,6 +132,8 @@ theorem csi_bin_in_bins (beg1 end1 beg2 end2 ms d : Nat) (hd : d ≤ 10) (h1 : b
 example : Standard [⟨0, 10⟩, ⟨2, 5⟩, ⟨1, 3⟩] := by intro co h; simp at h; rcases h with h | h | h <;> subst h <;> decide
 example : recordEnd false 100 [⟨0, 10⟩, ⟨2, 5⟩, ⟨1, 3⟩] = some 115 := by decide
 example : recordEnd false 100 [⟨0, 10⟩, ⟨9, 3⟩, ⟨0, 11⟩] = some 118 := by decide
+example : cigarIsValid [⟨5, 1⟩, ⟨4, 2⟩, ⟨0, 8⟩, ⟨5, 3⟩] 10 = some true := by decide
+example : cigarIsValid [⟨0, 4⟩, ⟨4, 2⟩, ⟨0, 4⟩] 10 = some false := by decide
 example : binFor 16000 16500 = 585 ∧ 585 ∈ overlappingBinsFor 16400 16401 := by decide
 example : reg2bin 0 2 0 2 = 1 ∧ 1 ∈ reg2bins 1 2 0 2 := by decide
 
